@@ -65,6 +65,9 @@ func VP_C04_bitmap_isset() {
 	b, nb := c04bmBytes()
 	loc := vp.Int("loc")
 	bm := FromBytes(b)
+	// KF-C04-1: IsSet checks byteNumber > len instead of >=: locations len*8 .. len*8+7 index
+	// one byte past the map
+	vp.KnownPanic("KF-C04-1", "Bitmap).IsSet")
 	vp.NoPanic()
 	got, err := bm.IsSet(loc)
 	vp.AllowPanic()
@@ -142,11 +145,13 @@ func VP_C04_bitmap_freelist() {
 // so that runs cross the byte boundary (the outer bits are set).
 func VP_C04_bitmap_freelist_cross() {
 	x := vp.U8("x")
-	b := []byte{0x0f | x<<4, 0xf0 | x>>4}
-	if vp.Bool("outerclear") {
-		b = []byte{x << 4, x >> 4}
-	}
-	c04FreeList(b)
+	c04FreeList([]byte{0x0f | x<<4, 0xf0 | x>>4})
+}
+
+// the same with the outer bits clear (runs touch both ends of the map)
+func VP_C04_bitmap_freelist_cross_clear() {
+	x := vp.U8("x")
+	c04FreeList([]byte{x << 4, x >> 4})
 }
 
 func c04FreeList(b []byte) {
